@@ -576,7 +576,9 @@ def _find_conflict(
             nodes = sorted(
                 [node_1, node_2]
                 + list(flatten(nodes for _, _, nodes in subconflicts)),
-                key=lambda n: n.loc,
+                # Nodes parsed with ``no_location`` have no position: keep
+                # their relative order (the sort is stable).
+                key=lambda n: n.loc or (0, 0),
             )
             return response_name, reason, nodes
 
